@@ -27,11 +27,22 @@ import (
 	"time"
 )
 
-const (
-	repo  = "/repo"
-	verif = "/verif"
-	gobin = "go1.26.8"
+const gobin = "go1.26.8"
+
+// repo and verif are /repo and /verif; VERIF_REPO / VERIF_ROOT override them for development
+// only (background sweeps from a snapshot of /verif, checks against a scratch worktree). The
+// commands registered in MANIFEST.json never set them.
+var (
+	repo  = envOr("VERIF_REPO", "/repo")
+	verif = envOr("VERIF_ROOT", "/verif")
 )
+
+func envOr(k, d string) string {
+	if v := os.Getenv(k); v != "" {
+		return v
+	}
+	return d
+}
 
 func die(code int, format string, a ...any) {
 	fmt.Fprintf(os.Stderr, "simcheck: "+format+"\n", a...)
